@@ -282,8 +282,14 @@ impl Font {
             (FormatVersion::V3, g, k) => (g, k), // For v3, we do nothing.
             (_, None, k) => (None, k), // Without a groups.plist, there's nothing to upgrade.
             (_, Some(g), k) => {
+                // Only the glyphs of the layers count as glyph names here; `glyph_names`
+                // additionally holds component base names and the names written in the glifs.
+                let glyph_set: NameList = layers
+                    .iter()
+                    .flat_map(|l| l.iter().map(|glyph| glyph.name().clone()))
+                    .collect();
                 let (groups, kerning) =
-                    upconversion::upconvert_kerning(&g, &k.unwrap_or_default(), &glyph_names);
+                    upconversion::upconvert_kerning(&g, &k.unwrap_or_default(), &glyph_set);
                 validate_groups(&groups).map_err(FontLoadError::GroupsUpconversionFailure)?;
                 (Some(groups), Some(kerning))
             }
